@@ -31,6 +31,7 @@ type scenario struct {
 	CloseFails   bool   `json:"transport_close_reports_an_error,omitempty"`
 	PongWriteErr bool   `json:"one_pong_write_fails_transiently,omitempty"`
 	Abandoned    int    `json:"requests_abandoned_before_their_late_reply,omitempty"`
+	CallFlood    int    `json:"incoming_calls_nobody_receives,omitempty"`
 }
 
 var durations = []int{50, 200, 1000, 1500, 10000, 30000}
@@ -53,6 +54,11 @@ func gen(c *vrun.Case) scenario {
 	if r.Intn(3) == 0 {
 		s.Abandoned = 1 + r.Intn(3)
 	}
+	if r.Intn(4) == 0 {
+		// more request calls and replies than the client's inboxes (1024 each) and dispatch queues hold, and an
+		// application that never asks for them: whatever the client does with the surplus, it must keep reading pongs
+		s.CallFlood = 1100 + r.Intn(1500)
+	}
 	return s
 }
 
@@ -61,7 +67,7 @@ const slack = time.Millisecond
 func TestC15Keepalive(t *testing.T) {
 	e := vrun.LoadEnv()
 	meta := vrun.Meta{Property: "C15", Workload: "TestC15Keepalive", Total: e.Pick(200, 50000),
-		Rule: "virtual time (testing/synctest): (interval, timeout) drawn from {50ms,200ms,1s,1.5s,10s,30s}^2; the broker answers the first k in {0,1,2,5,20,all} pings in time (pong delay 0, timeout/2 or timeout-1ms) and then falls silent or answers late (timeout+1ms, 3*timeout); with or without concurrent upstream traffic (the silent broker withholds its acks as well); 0/3/10 broker-originated pings interleaved (in half of those cases the write of the first pong fails once while the link stays up), in a third of the cases 1-3 application requests whose caller gives up before the broker's (late) reply, in a third a transport whose Close reports an error, in a third of the cases also a burst of 12-31 broker pings at once while the client's pong writes take 5 ms each. Oracle on the virtual clock: disconnect notification no later than interval + timeout + 1 ms after the broker's last timely message, AND no later than timeout + 1 ms after the first ping that is not answered in time reached the broker, and a new dial; no disconnect and no redial over 40 intervals while every pong is in time; every broker ping answered by a pong with the same request id; announced interval/timeout = configured values truncated to whole seconds. non-trivial = at least 2 client pings observed; distinct = scenario tuple",
+		Rule: "virtual time (testing/synctest): (interval, timeout) drawn from {50ms,200ms,1s,1.5s,10s,30s}^2; the broker answers the first k in {0,1,2,5,20,all} pings in time (pong delay 0, timeout/2 or timeout-1ms) and then falls silent or answers late (timeout+1ms, 3*timeout); with or without concurrent upstream traffic (the silent broker withholds its acks as well); 0/3/10 broker-originated pings interleaved (in half of those cases the write of the first pong fails once while the link stays up), in a third of the cases 1-3 application requests whose caller gives up before the broker's (late) reply, in a third a transport whose Close reports an error, in a quarter 1100-2599 incoming request calls and as many replies that the application never receives, in a third of the cases also a burst of 12-31 broker pings at once while the client's pong writes take 5 ms each. Oracle on the virtual clock: disconnect notification no later than interval + timeout + 1 ms after the broker's last timely message, AND no later than timeout + 1 ms after the first ping that is not answered in time reached the broker, and a new dial; no disconnect and no redial over 40 intervals while every pong is in time; every broker ping answered by a pong with the same request id; announced interval/timeout = configured values truncated to whole seconds. non-trivial = at least 2 client pings observed; distinct = scenario tuple",
 		Assumptions: []string{"scheduling slack is 1 ms of virtual time (inside a bubble time only advances when every goroutine is blocked)",
 			"'silence' starts with the first ping that does not get its pong within the timeout; the bound is measured from that ping's arrival at the broker"}}
 	vrun.Loop(t, meta, 0, func(c *vrun.Case) vrun.Result {
@@ -287,6 +293,22 @@ func run(s scenario) vrun.Result {
 					bpIDs = append(bpIDs, id)
 					mu.Unlock()
 				}
+			}
+		}()
+	}
+	if s.CallFlood > 0 {
+		lc := w.B.CurrentLink()
+		twg.Add(1)
+		go func() {
+			defer twg.Done()
+			select {
+			case <-ctx.Done():
+				return
+			case <-time.After(iv / 6):
+			}
+			for i := 0; i < s.CallFlood; i++ {
+				lc.Send(&message.DownstreamCall{CallID: fmt.Sprintf("flood-%d", i), SourceNodeID: "src", Name: "n", Type: "t", Payload: []byte("c")})
+				lc.Send(&message.DownstreamCall{CallID: fmt.Sprintf("flood-r-%d", i), RequestCallID: fmt.Sprintf("nobody-%d", i), SourceNodeID: "src", Name: "n", Type: "t", Payload: []byte("c")})
 			}
 		}()
 	}
